@@ -18,18 +18,18 @@ AGENTS3 = ["a1", "a2", "a3"]
 class Cb:
     """Subscription callback: records the last event per (agent, kind, item) in the current world's monitor."""
 
-    def __init__(self, owner, kind, item):
-        self.owner, self.kind, self.item = owner, kind, item
+    def __init__(self, owner, kind, item, tag=1):
+        self.owner, self.kind, self.item, self.tag = owner, kind, item, tag
 
     def __call__(self, evt, name, value, *rest):
         netx.CUR.mon.setdefault("cb", {})[(self.owner, self.kind, self.item)] = (evt, name, value)
         netx.CUR.mon["ncb"] = netx.CUR.mon.get("ncb", 0) + 1
 
     def __eq__(self, other):
-        return isinstance(other, Cb) and (self.owner, self.kind, self.item) == (other.owner, other.kind, other.item)
+        return isinstance(other, Cb) and (self.owner, self.kind, self.item, self.tag) == (other.owner, other.kind, other.item, other.tag)
 
     def __hash__(self):
-        return hash((self.owner, self.kind, self.item))
+        return hash((self.owner, self.kind, self.item, self.tag))
 
     def __deepcopy__(self, memo):
         return self
@@ -87,7 +87,7 @@ class DiscSpec(netx.Spec):
 
     def canon_extra(self, world):
         m = world.mon
-        return (sorted(m["ref"]["hosted"].items()), sorted(m["ref"]["replicas"]), sorted(m["ref"]["subs"]), sorted(m["ref"]["agents"]), m["ref"]["nops"], sorted(m["ref"]["unsubbed"]), sorted(m["ref"].get("last_host", {}).items()), sorted(m["ref"].get("left", [])), sorted(m["ref"].get("at_sub", {}).items()), sorted(m["ref"].get("reregistered", [])),
+        return (sorted(m["ref"]["hosted"].items()), sorted(m["ref"]["replicas"]), sorted(m["ref"]["subs"]), sorted(m["ref"]["agents"]), m["ref"]["nops"], sorted(m["ref"]["unsubbed"]), sorted(m["ref"].get("last_host", {}).items()), sorted(m["ref"].get("left", [])), sorted(m["ref"].get("at_sub", {}).items()), sorted(m["ref"].get("reregistered", [])), sorted(m["ref"].get("two", [])), sorted(m["ref"].get("had_two", [])),
                 sorted((k, v) for k, v in m.get("cb", {}).items()))
 
     def extra_events(self, world):
@@ -120,6 +120,13 @@ class DiscSpec(netx.Spec):
                 for kind in ("C", "R"):
                     if (x, kind, c) in [tuple(s) for s in ref["subs"]]:
                         evs.append(("op", x, "unsub" + kind, c))
+                        # a second callback on the same subscription, and the removal of the FIRST callback only (the agent stays
+                        # subscribed through the other one)
+                        two = [x, kind, c] in ref.get("two", [])
+                        if not two and [x, kind, c] not in ref.get("had_two", []):
+                            evs.append(("op", x, "sub2" + kind, c))
+                        elif two:
+                            evs.append(("op", x, "unsub1" + kind, c))
                     elif kind == "C" or self._knows(world, x, c) or (x, "C", c) in [tuple(s_) for s_ in ref["subs"]]:
                         # replicas can only be recorded for a computation the agent knows: subscribing to the replicas of a
                         # computation presupposes knowing it (as ResilientAgent / UCSReplication do)
@@ -164,6 +171,8 @@ class DiscSpec(netx.Spec):
             # the directory forgets the subscriptions of an agent that un-registers
             for sub in [s_ for s_ in ref["subs"] if s_[0] == x]:
                 ref["subs"].remove(sub)
+                if sub in ref.get("two", []):
+                    ref["two"].remove(sub)
                 if sub not in ref["unsubbed"]:
                     ref["unsubbed"].append(sub)
                 world.mon.get("cb", {}).pop(tuple(sub), None)
@@ -180,6 +189,8 @@ class DiscSpec(netx.Spec):
             # ("we must unsubscribe first, so that we don't get a notification from the directory")
             if [x, "C", arg] in ref["subs"]:
                 ref["subs"].remove([x, "C", arg])
+                if [x, "C", arg] in ref.get("two", []):
+                    ref["two"].remove([x, "C", arg])
                 if [x, "C", arg] not in ref["unsubbed"]:
                     ref["unsubbed"].append([x, "C", arg])
                 world.mon.get("cb", {}).pop((x, "C", arg), None)
@@ -196,15 +207,28 @@ class DiscSpec(netx.Spec):
         elif op == "unsubC":
             d.unsubscribe_computation(arg)
             ref["subs"].remove([x, "C", arg])
+            if [x, "C", arg] in ref.get("two", []):
+                ref["two"].remove([x, "C", arg])
             if [x, "C", arg] not in ref["unsubbed"]:
                 ref["unsubbed"].append([x, "C", arg])
             world.mon.get("cb", {}).pop((x, "C", arg), None)
+        elif op in ("sub2C", "sub2R"):
+            k = op[-1]
+            (d.subscribe_computation if k == "C" else d.subscribe_replica)(arg, Cb(x, k, arg, 2))
+            ref.setdefault("two", []).append([x, k, arg])
+            ref.setdefault("had_two", []).append([x, k, arg])
+        elif op in ("unsub1C", "unsub1R"):
+            k = op[-1]
+            (d.unsubscribe_computation if k == "C" else d.unsubscribe_replica)(arg, Cb(x, k, arg, 1))
+            ref["two"].remove([x, k, arg])
         elif op == "subR":
             d.subscribe_replica(arg, Cb(x, "R", arg))
             ref["subs"].append([x, "R", arg])
         elif op == "unsubR":
             d.unsubscribe_replica(arg)
             ref["subs"].remove([x, "R", arg])
+            if [x, "R", arg] in ref.get("two", []):
+                ref["two"].remove([x, "R", arg])
             if [x, "R", arg] not in ref["unsubbed"]:
                 ref["unsubbed"].append([x, "R", arg])
             world.mon.get("cb", {}).pop((x, "R", arg), None)
@@ -339,7 +363,9 @@ def first_events(agents, comps, unreg, only=None):
 def run(ctx):
     ctx.level = "model_checking"
     if ctx.quick:
-        plans = [(AGENTS2, ["c1"], 5, False, None), (AGENTS2, ["c1"], 4, True, None), (AGENTS3, ["c1"], 6, False, ["subC", "subR", "regC", "regR"])]
+        plans = [(AGENTS2, ["c1"], 5, False, None), (AGENTS2, ["c1"], 4, True, None), (AGENTS3, ["c1"], 6, False, ["subC", "subR", "regC", "regR"]),
+                 # two callbacks on one subscription, one of them removed (7 operations over a restricted alphabet)
+                 (AGENTS2, ["c1"], 7, False, ["regC", "subC", "subR", "sub2R", "sub2C", "regR", "unsub1R", "unsub1C", "unregR"])]
     else:
         plans = [(AGENTS2, ["c1"], 7, True, None), (AGENTS2, ["c1", "c2"], 5, False, None), (AGENTS3, ["c1"], 5, False, None),
                  (AGENTS3, ["c1"], 7, False, ["subC", "subR", "regC", "regR", "unregR", "unregC"])]
